@@ -47,6 +47,11 @@ PARTIAL = [
     "object-level (Shape) round trip removeKnot (insertKnot S ...).1 ... = (S, true), the partial version (r in, t <= r out = r - t in) and the evaluated-point corollary are proved for curves, for either direction of a surface and for any direction of a volume (surface_insert_then_remove, volume_insert_then_remove, *_insert_r_remove_t_object, *_remove_after_insert_preserves_points) when the call requests ONE direction (OnlyDir); insert in several directions followed by removal in several directions is not proved (the removal of the first direction then runs on a net refined in the others: needs the commutation of insertion in one direction with removal in another)",
     "volumes, list-of-rows branch of helpers.knot_removal: MODELLED as coded (knotRemovalRows: sweep over whole rows, ONE removability flag per step from the FIRST point of the rows, and the object sharing between temp and ctrlpts_new - temp[last-first+2] = ctrlpts_new[last+1] stores the list itself, which the sweep of the next step writes into; streams rem-rows (inserted / random / only-first-removable / first-not-removable rows, 1..s copies, and the three Lean witnesses) and rem-vol-rows against the real helper called with rows and against operations.remove_knot on volumes, removable or not). PROVED: if every iso-curve passes the removability test at every step (Rows.AllRemovable, decidable; true after insertion: inserted_knots_all_removable) the rows branch returns exactly the per-iso-curve results (knotRemovalRows_isocurve_of_all_removable, knotRemovalRows_is_transposed_knotRemoval, mapVolRows_remove_eq_mapVol, removeKnotVolRows_is_removeKnotDir, volume_u/v/w_rows_insert_r_remove_t); for ONE removal it does so on every iso-curve whose flag equals the first iso-curve's flag (knotRemovalRows_one_removal_isocurve_of_equal_flags); rows stay rectangular for any input. REFUTED on concrete witnesses (kernel-decided, replayed on the implementation): the two flag mismatches (knotRemovalRows_refutes_isocurve_when_only_first_removable / _when_first_not_removable) and, for 2+ removals of a knot that is NOT removable, the write through the shared row, which changes a control point even with a single iso-curve (knotRemovalRows_refutes_point_branch_on_shared_row: rows branch 8, point branch 1). NOT proved: agreement for 2+ removals when some step finds the knot not removable (there the two branches of the CODE genuinely differ); the object-level model removeKnotDir / removeKnot keeps deciding per iso-curve, so the operation-level streams ins-rem* still generate only removable knots for volumes - the rows model (rowsvol) is the one compared on unremovable volume knots",
     "knotRemovalRows_isocurve_of_all_removable / knotRemovalRows_one_removal_isocurve_of_equal_flags carry the rectangular-rows guard of the code / driver as hypothesis (not used by the proofs)",
+    "the object-level theorems that take the param / num lists of insert_knot / remove_knot (surface/volume_insert_then_remove, *_remove_after_insert_preserves_points, "
+    "*_insert_r_remove_t_object, *_remove_removable_knot_object(_points)) carry the list guard of the code as hypotheses hpl (pdim <= len(param)), hnl (len(num) = pdim); the "
+    "driver ops I / R answer ERR exactly where the code raises (Driver/Shape.lean callListsOk: param shorter than pdim -> IndexError; with check_num len(num) != pdim; without "
+    "check_num a num entry missing where param[i] is not None), a LONGER param list is accepted by both (surplus never read) - diagnostic correspondence stream list-lengths; "
+    "the theorems do not speak about surplus entries",
 ]
 
 
@@ -125,6 +130,42 @@ def gen(rng, tier):
         line = "%s %s %s I %s %s 1 R %s %s 1" % (op, KO.KIND[d['kind']], S.args(d), KO.opt(prm), ",".join(map(str, nr)),
                                                  KO.opt(prm), ",".join(map(str, nt)))
         out.append(Case(kind, line, dict(shape=d, dir=[i for i in range(nd) if prm[i] is not None][0], prm=prm, nr=nr, nt=nt), tags=('multi-dir',)))
+    # list-lengths (diagnostic correspondence, audit 4 H5): the param / num lists of insert_knot / remove_knot with
+    # other lengths than the number of parametric directions.  The code checks len(num) only (and only with
+    # check_num); param[i] is read for every direction (IndexError when too short), a LONGER param list is accepted;
+    # without check_num a longer num list is accepted and a shorter one raises only where param[i] is not None.
+    # The driver must answer ERR exactly where the code raises.
+    k = 0
+    while k < (40 if tier == 'quick' else 400):
+        d = KO.rand_shape(rng)
+        rq = _req(rng, d)
+        if rq is None:
+            continue
+        i, prm, nr, nt = rq
+        nd = len(prm)
+        which = rng.choice(['I', 'R'])
+        chk = rng.choice([1, 1, 0])
+        mode = rng.choice(['param-longer', 'param-longer', 'num-longer', 'num-shorter', 'param-shorter', 'both-longer'])
+        pv = list(prm); nv = list(nr if which == 'I' else nt)
+        if mode in ('param-longer', 'both-longer'):
+            pv = pv + [rng.choice([None, F(7), F(1, 3)])]
+        if mode in ('num-longer', 'both-longer'):
+            nv = nv + [rng.choice([0, 0, 5])]
+        if mode == 'num-shorter':
+            if nd < 2:
+                continue
+            nv = nv[:rng.randint(1, nd - 1)]
+        if mode == 'param-shorter':
+            if nd < 2:
+                continue
+            pv = pv[:rng.randint(1, nd - 1)]
+        pi, ni, pr, nrm = (pv, nv, prm, nt) if which == 'I' else (prm, nr, pv, nv)
+        ci, cr = (chk, 1) if which == 'I' else (1, chk)
+        G.count('list_lengths', (which, mode, chk))
+        line = "ops %s %s I %s %s %d R %s %s %d" % (KO.KIND[d['kind']], S.args(d), KO.opt(pi), ",".join(map(str, ni)), ci,
+                                                    KO.opt(pr), ",".join(map(str, nrm)), cr)
+        out.append(Case('list-lengths', line, dict(shape=d, pi=pi, ni=ni, ci=ci, pr=pr, nr=nrm, cr=cr), tags=('diagnostic', mode)))
+        k += 1
     # removal after refinement (curves and surfaces): remove every copy of one refined knot
     m = 15 if tier == 'quick' else 200
     k = 0
@@ -240,6 +281,11 @@ def _run(c, o, probe=None):
     from geomdl import operations
     import io, contextlib
     d = c.data['shape']
+    if c.kind == 'list-lengths':
+        x = c.data
+        operations.insert_knot(o, [None if v is None else q(v) for v in x['pi']], list(x['ni']), check_num=bool(x['ci']))
+        operations.remove_knot(o, [None if v is None else q(v) for v in x['pr']], list(x['nr']), check_num=bool(x['cr']))
+        return None
     qp = [None if x is None else q(x) for x in c.data['prm']]
     if c.kind in ('ins-rem',):
         operations.insert_knot(o, qp, list(c.data['nr']))
@@ -355,6 +401,8 @@ def oracle(c):
         return _oracle_rows(c)
     if c.kind == 'rem-vol-rows':
         return _oracle_vol_rows(c)
+    if c.kind == 'list-lengths':
+        return None      # malformed / surplus argument lists: outside the property (diagnostic correspondence only: ERR = raise)
     d = c.data['shape']
     o = S.build(d)
     before = S.from_obj(o)
